@@ -232,7 +232,7 @@ _CATALOGUE: dict = {}
 # argument structure is a dimension of the property: besides mixed representations, whole
 # argument tuples whose numbers all share one representation (all Fraction, all Float, all
 # rounded Float carrying flags and a context, all float, all int, all RealFloat)
-_MODES = ['mixed', 'mixed', 'q', 'F', 'Fr', 'f', 'i', 'R', 'mixed', 'F']
+_MODES = ['mixed', 'mixed', 'q', 'F', 'Fr', 'f', 'i', 'R', 'mixed', 'Fr']      # (a flagged, rounded Float in both halves of every catalogue)
 
 
 def _coerce_num(spec, kind: str):
